@@ -154,7 +154,7 @@ fn parse_content(c: &str) -> Vec<(Vec<u8>, Vec<(Vec<u8>, Vec<u8>)>)> {
     c.split(';')
         .map(|s| {
             let (nm, cs) = s.split_once('=').expect("sample");
-            let contigs = if cs.is_empty() {
+            let contigs = if cs.is_empty() || cs == "!" {
                 vec![]
             } else {
                 cs.split(',')
